@@ -11,7 +11,12 @@ import (
 )
 
 // reaches reports whether container `to` is reachable from `from` (both inclusive).
-func reaches(from, to any) bool {
+func reaches(from, to any) (res bool) {
+	defer func() {
+		if r := recover(); r != nil {
+			res = true // a container that cannot even be walked: treat as reachable, i.e. never nest it
+		}
+	}()
 	if from == to {
 		return true
 	}
@@ -109,7 +114,12 @@ func (p *Prog) idx(n int) int {
 	}
 }
 
-func sortable(l at.List) bool {
+func sortable(l at.List) (res bool) {
+	defer func() {
+		if r := recover(); r != nil {
+			res = false
+		}
+	}()
 	if l.Count() == 0 {
 		return false
 	}
